@@ -436,6 +436,20 @@ class Exec:
 
     # ---- expressions ---------------------------------------------------------------------
     def ev(self, e, ps, exits):
+        ab = getattr(self.c, 'abstractions', None)
+        if ab:
+            key = ast.unparse(e)
+            if key in ab:
+                # an expression outside the encoder subset, replaced by a fresh value about which only the stated property is assumed
+                # (every abstraction is listed with its justification in the evidence file; the rest of the function is the real code)
+                shape, fn = ab[key]
+                self.notes.append('abstracted: ' + key)
+                with S.symbolic_mode():
+                    if shape == 'expr': return fn(StateView(ps))
+                    v = make_shape(shape, 'abs%d' % next(_ctr), ps.heap)
+                    a = fn(view_of(ps, v), StateView(ps))
+                    ps.pc.append(zbool(a) if isinstance(a, z3.ExprRef) else z3.BoolVal(bool(a)))
+                return v
         m = getattr(self, 'ev_' + type(e).__name__, None)
         if m is None: raise Undecided('unsupported expression %s at line %d' % (type(e).__name__, e.lineno))
         return m(e, ps, exits)
